@@ -46,8 +46,10 @@ Oracle (the property, public accessors only; _c14_impl.oracle_run): each pass up
   or raises) leave a deep snapshot (initializer order, const_value identity, inputs, shapes, types) unchanged.
   RemoveUnusedNodesPass additionally runs on the exhaustive optional-output family (optional_output_specs, 870 specs).
   Faults: onnx.checker.check_model / onnx.shape_inference.infer_shapes rebound to raise; a LazyTensor whose
-  evaluation raises during serialization.  Scripted infra oracle: identity rule and PassManager convergence
-  (C14_manager_converges) on the real PassManager.
+  evaluation raises during serialization.  Scripted infra oracle: identity rule, PassManager convergence
+  (C14_manager_converges) on the real PassManager, and "a PassManager over well-behaved passes (some functional,
+  first step possibly a no-op) does not raise".  A PassError of the identity rule raised by a built-in pass or a
+  composition of built-in passes is an identity failure (PassManager(steps=0) is never generated).
 
 Readings of ambiguous English (weaker reading taken):
   * "size of the model" = nodes + node inputs/outputs + graph inputs/outputs + initializers + opset imports +
@@ -146,6 +148,24 @@ def gen_converging_mgr(rng) -> dict:
     if all(p["eff"]["k"] != "dec" for p in ps):
         ps[0]["eff"] = {"k": "dec", "n": 1}
     return {"mgr": ps, "steps": rng.choice([10, 12, 20]), "early": True, "converging": True}
+
+
+def gen_functional_mgr(rng) -> dict:
+    """PassManager(early_stop) over honest, well-behaved passes at least one of which is functional, often started
+    on a state where the first step is a no-op (re-applying a manager to its converged result)."""
+    def wb(functional: bool, e: dict) -> dict:
+        return {"prim": True, "ip": not functional, "ch": not functional, "rq": False, "en": False, "cr": False,
+                "ret": "clone" if functional else "same", "eff": e, "own": True}
+    effs = [{"k": "dec", "n": 1}, {"k": "nop", "f": False}, {"k": "set", "n": 0}]
+    ps = []
+    for i in range(rng.randrange(1, 4)):
+        prim = wb(rng.random() < 0.6, rng.choice(effs))
+        ps.append({"fun": wb(False, rng.choice(effs))} if rng.random() < 0.3 else prim)
+    if all(not (p.get("fun") or not p.get("ip", True)) for p in ps):
+        ps[0] = wb(True, rng.choice(effs))
+    t = {"mgr": ps, "steps": rng.choice([1, 2, 3, 6]), "early": True, "valid_use": True}
+    return {"mgr": [t, wb(rng.random() < 0.5, {"k": "nop", "f": False})], "steps": 2, "early": True, "valid_use": True} \
+        if rng.random() < 0.25 else t
 
 
 def gen_pterm(rng, depth: int) -> dict:
@@ -273,6 +293,10 @@ def infra_oracle(t: dict, obs: dict) -> list[str]:
     """The identity rule on the observation (property side, independent of the model)."""
     o = obs["outcome"]
     bad = []
+    if t.get("valid_use") and o[0] != "ok":
+        # every member is well behaved and honest: the composition must not raise (in particular not trip the
+        # identity rule of PassBase.__call__ on itself)
+        bad.append(f"a PassManager over well-behaved passes raised {o[1]}")
     if t.get("converging"):
         # C14_manager_converges on the implementation: measure = counter (< steps), every True flag decreases it
         if o[0] != "ok" or obs["counters"][0] != 0:
@@ -603,7 +627,9 @@ def correspondence(ck, scale: int) -> dict:
     cases, terms = [], []
     for i in range(500 * scale):
         t = gen_pterm(rng, rng.choice([0, 1, 2, 2, 3])) if i % 8 else gen_converging_mgr(rng)
-        c0 = rng.choice([0, 1, 2, 3, 5, 9])
+        if i % 8 == 4:
+            t = gen_functional_mgr(rng)
+        c0 = rng.choice([0, 1, 2, 3, 5, 9]) if i % 8 != 4 else rng.choice([0, 0, 1, 2])
         obs = run_infra_case(t, c0)
         ck.count()
         o = obs["outcome"]
@@ -1025,6 +1051,14 @@ All reported VIOLATION; "replay" = a concrete failing input found by the oracle,
        schema-driven family optional_output_specs() (LayerNormalization, BatchNormalization +/- training_mode, Dropout,
        MaxPool, LSTM, GRU x every used/unused/graph-output role of every output x dead code x opset x trailing None;
        870 specs, run on every tier independent of the seed) -> replay (LayerNormalization uuc: flag, g0:value:name)
+ S4  (independent seeded change seeded/C14-r2m2) PassManager.call: early-stop check moved above `model = step_result.model`,
+       so a manager containing a functional pass returns its INPUT object when the first step reports no modification
+       (PassBase.__call__ then raises PassError) -> FIRST only corr infra / no-failing-input-found (the oracle treated a
+       raising composition as outside the contract); now replay by two new oracle clauses: (1) _c14_impl.oracle_run: a
+       built-in pass or composition must never trip the identity rule of PassBase.__call__ (PassError "... same object as
+       the input model" anywhere in the exception chain = identity failure; compositions are re-applied to their own
+       result for 3 rounds); (2) scripted infra: gen_functional_mgr — PassManager(early_stop, steps>=1) over well-behaved
+       honest passes with at least one functional member, often started where the first step is a no-op, must not raise.
 Also checked: with the four fix commits reverted (old HEAD 823601c) the check reported the six findings
 (KNOWN-FINDING while they were status "known"); with the fixes applied and the old models it reported every
 finding stale + broken correspondences (no false VIOLATION input in 26k oracle evaluations).
